@@ -121,7 +121,7 @@ def empty(it, args, kwargs):
     if isinstance(shp, (int, Sym)):
         shp = (shp,)
     shp = tuple(int(s) if not isinstance(s, Sym) else _concrete(s) for s in shp)
-    return NdArr(shp, None) if len(shp) > 1 else NdArr(shp, None)
+    return NdArr(shp, None, kind=_dtype_kind(kwargs.get("dtype", args[1] if len(args) > 1 else None)))
 
 
 def _concrete(s):
@@ -221,5 +221,6 @@ def io_ext(store):
         "np.asarray": asarray, "xp.asarray": asarray, "np.empty": empty, "xp.empty": empty, "np.sum": np_sum, "xp.sum": np_sum,
         "np.argsort": passthrough_numpy("argsort"), "np.unique": passthrough_numpy("unique"),
         "open": opener(store), "time.ctime": lambda it, a, k: it.w.uf("time.ctime", [], "val"),
+        "xp.real": lambda it, a, k: a[0], "textwrap.fill": lambda it, a, k: a[0],
     })
     return ext
